@@ -26,7 +26,7 @@ import tempfile
 from vlib.core import Acc
 from vlib import yamltext as yt
 
-VALUE_KINDS = ["int", "str", "list", "map", "eager", "lazy"]
+VALUE_KINDS = ["int", "str", "list", "map", "eager", "lazy", "typed"]
 HEAD_FORMS = ["tagmap", "tagseq", "bare", "typemap"]
 TAIL_FORMS = HEAD_FORMS + ["typeargs"]
 KEYS = ["k", "m"]
@@ -40,9 +40,16 @@ STYLES = ["block", "flow"]
 #                       "kwargs": {name: kind}}...], "fail": index or None, "style": style}
 
 
-def value_py(kind):
-    """A fresh Python value of the given kind"""
+def value_py(kind, form=None):
+    """A fresh Python value of the given kind (as argument of an element written in ``form``)"""
     import verif_plugins as vp
+
+    if kind == "typed":
+        # a nested legacy __type__ mapping: translated inside __type__ elements only,
+        # plain data inside !Tag elements
+        if form in ("typemap", "typeargs"):
+            return vp.VItemL(c=[3])
+        return {"__type__": "verif_plugins.VItemL", "c": [3]}
 
     if kind == "int":
         return 3
@@ -68,6 +75,9 @@ def value_node(kind, flow):
     if kind == "lazy":
         return yt.seq([yt.py([1, 2], flow), yt.py({"c": [3]}, flow)],
                       tag="!VItemL", flow=flow)
+    if kind == "typed":
+        return yt.mapping([("__type__", yt.scalar("verif_plugins.VItemL")),
+                           ("c", yt.py([3], flow))], flow=flow)
     return yt.py(value_py(kind), flow)
 
 
@@ -91,8 +101,9 @@ def norm(value):
 
 def expected_call(element):
     """Normalised (args, kwargs) an element must be constructed with (target aside)"""
-    return ([norm(value_py(kind)) for kind in element["args"]],
-            {name: norm(value_py(kind)) for name, kind in element["kwargs"].items()})
+    form = element["form"]
+    return ([norm(value_py(kind, form)) for kind in element["args"]],
+            {name: norm(value_py(kind, form)) for name, kind in element["kwargs"].items()})
 
 
 def element_node(element, style):
@@ -135,12 +146,13 @@ def python_pipeline(case):
         parts = []
         for element in case["elements"][:-1]:
             parts.append(getattr(vp, element["cls"]).s(
-                *[value_py(kind) for kind in element["args"]],
-                **{name: value_py(kind) for name, kind in element["kwargs"].items()}))
+                *[value_py(kind, element["form"]) for kind in element["args"]],
+                **{name: value_py(kind, element["form"])
+                   for name, kind in element["kwargs"].items()}))
         tail = case["elements"][-1]
         parts.append(getattr(vp, tail["cls"])(
-            *[value_py(kind) for kind in tail["args"]],
-            **{name: value_py(kind) for name, kind in tail["kwargs"].items()}))
+            *[value_py(kind, tail["form"]) for kind in tail["args"]],
+            **{name: value_py(kind, tail["form"]) for name, kind in tail["kwargs"].items()}))
         head = functools.reduce(operator.rshift, parts)
         objects = [head]
         while hasattr(objects[-1], "target") and len(objects) <= len(parts):
@@ -335,7 +347,8 @@ def class_name(pos, size, parity, failing):
 
 def grid_element(form, slot, pattern):
     """Main grid: arity two, values rotate with the slot and the document's pattern"""
-    kinds = [VALUE_KINDS[(pattern + slot) % 6], VALUE_KINDS[(pattern + slot + 1) % 6]]
+    count = len(VALUE_KINDS)
+    kinds = [VALUE_KINDS[(pattern + slot) % count], VALUE_KINDS[(pattern + slot + 1) % count]]
     if form in ("tagmap", "typemap"):
         return [], dict(zip(KEYS, kinds))
     if form == "tagseq":
@@ -376,7 +389,7 @@ def grid_cases(prefix, size, parity, style, all_patterns_fail):
         ]
     for suffix in tails:
         forms = tuple(prefix) + suffix
-        for pattern in range(6):
+        for pattern in range(len(VALUE_KINDS)):
             arguments = [grid_element(form, 2 * pos, pattern)
                          for pos, form in enumerate(forms)]
             entries = BOTH if size <= 4 or pattern == 0 else BOTH[1:]
